@@ -99,10 +99,12 @@ class ParameterSection(Micheline, prim='parameter', args_len=1):
 
     def to_parameters(self, mode='readable') -> Dict[str, Any]:
         entrypoint, item = self.root_name, self.item
-        if isinstance(self.item, OrType):
-            flat_values = self.item.get_flat_values(entrypoints=True)
-            assert isinstance(flat_values, dict) and len(flat_values) == 1, f'expected named type'
-            entrypoint, item = next(iter(flat_values.items()))
+        node = self.item
+        while isinstance(node, OrType):
+            # follow the active branch; the deepest annotated node on it is the entrypoint
+            node = node.resolve()
+            if node.field_name:
+                entrypoint, item = node.field_name, node
         return {
             'entrypoint': entrypoint,
             'value': item.to_micheline_value(mode=mode, lazy_diff=None),
